@@ -221,16 +221,83 @@ theorem C33_subvec_root_agree_step (st : State K) (parent hs : Handle) (pre sub 
   | none => simp
   | some r => simp [arithStep, State.read]
 
+/-- Write by name = write exactly that variable's slice: a named operation on vector `t` is the
+plain vector operation on the (nameless) vector occupying `[start, stop)` of the variable in the
+root array — with the same index and broadcasting rules and the same error cases. -/
+theorem C33_views_alias (st : State K) (t : Handle) (name : String) (f : BinOp) (raw : Bool)
+    (vals : List (Cx K)) (idx : Idx) :
+    step st (.named t name f raw vals idx) =
+      match t.absRange name with
+      | none => (st, .err "name")
+      | some (a, b) =>
+        step st (.arith { vid := t.vid, off := a, len := b - a, views := [],
+                          solverRef := t.solverRef } f raw (.vals vals) idx) := by
+  cases h : t.absRange name with
+  | none => simp [step, Handle.var, h]
+  | some r =>
+    obtain ⟨a, b⟩ := r
+    simp [step, var_eq t name a b h]
+
+/-- `set_var(name, value, idxs)` (non-flat) once NumPy has resolved the index to the positions
+`ps`: with a directly assignable value it is the raw assignment of the broadcast values at `ps`;
+otherwise — the reshape fallback — a value with as many entries as the selection is assigned *to
+the vector's cells* `ps` in C order (by `C33_step_arith`/`C33_ops_pointwise` cell `a + ps[k]`
+becomes `vals[k]`; it is not lost in a temporary), and any other value is an error that leaves the
+state alone. -/
+theorem C33_set_var_sel (st : State K) (t : Handle) (name : String) (a b : Nat) (ps : List Nat)
+    (bvals : Option (List (Cx K))) (vals : List (Cx K)) (h : t.absRange name = some (a, b)) :
+    step st (.setVarSel t name (some ps) bvals vals) =
+      match bvals with
+      | some bv =>
+        step st (.arith { vid := t.vid, off := a, len := b - a, views := [],
+                          solverRef := t.solverRef } .set true (.vals bv) (.list ps))
+      | none =>
+        if vals.length = ps.length then
+          step st (.arith { vid := t.vid, off := a, len := b - a, views := [],
+                            solverRef := t.solverRef } .set true (.vals vals) (.list ps))
+        else (st, .err "shape") := by
+  cases bvals <;> simp [step, var_eq t name a b h]
+
 /-- Writing by name (`set_var`, `__setitem__`, `_abs_set_val`, `vec[name] op= v`), successful or
 not, changes nothing outside the variable's `[start, stop)` of the root array. -/
 theorem C33_named_write_local (st : State K) (t : Handle) (name : String) (f : BinOp) (raw : Bool)
     (vals : List (Cx K)) (idx : Idx) (a b : Nat) (h : t.absRange name = some (a, b))
     (q : Nat) (hq : q < a ∨ b ≤ q) :
     ((step st (.named t name f raw vals idx)).1.dataOf t.vid)[q]? = (st.dataOf t.vid)[q]? ∧
-    ((step st (.namedIop t name f vals)).1.dataOf t.vid)[q]? = (st.dataOf t.vid)[q]? := by
+    ((step st (.namedIop t name f vals)).1.dataOf t.vid)[q]? = (st.dataOf t.vid)[q]? ∧
+    (∀ sel bvals, ((step st (.setVarSel t name sel bvals vals)).1.dataOf t.vid)[q]? =
+      (st.dataOf t.vid)[q]?) := by
   have hv := var_eq t name a b h
   have hq' : q < a ∨ a + (b - a) ≤ q := by omega
-  constructor
+  have key : ∀ (f : BinOp) (raw : Bool) (src : Src K) (idx : Idx),
+      ((arithStep st ⟨t.vid, a, b - a, [], t.solverRef⟩ f raw src idx).1.dataOf t.vid)[q]? =
+        (st.dataOf t.vid)[q]? := by
+    intro f raw src idx
+    obtain ⟨d', e, _, hd⟩ := arithStep_spec st
+      { vid := t.vid, off := a, len := b - a, views := [], solverRef := t.solverRef } f raw src idx
+    rw [e]
+    simp only at hd ⊢
+    cases hvv : st.vecs[t.vid]? with
+    | none =>
+      have : st.setData t.vid d' = st := by unfold State.setData; rw [hvv]
+      rw [this]
+    | some v =>
+      rw [dataOf_setData _ _ _ v hvv]
+      exact hd q hq'
+  refine ⟨?_, ?_, ?_⟩
+  rotate_left 2
+  · intro sel bvals
+    simp only [step, hv]
+    cases sel with
+    | none => rfl
+    | some ps =>
+      cases bvals with
+      | some bv => exact key _ _ _ _
+      | none =>
+        simp only
+        split
+        · exact key _ _ _ _
+        · rfl
   · simp only [step, hv]
     obtain ⟨d', e, _, hd⟩ := arithStep_spec st
       { vid := t.vid, off := a, len := b - a, views := [], solverRef := t.solverRef } f raw
